@@ -1282,6 +1282,17 @@ def check_window(case):
         for m in diff([norm(x) for x in back], want):
             return Fail(f'windowed-slice/{m.cls}' + ('' if attempt == 'first' else '/second-parse'),
                         f'window bits {sb}..{eb} refs {sr}..{er} of a cell with {nb} bits / {nr} refs: {m.path}: {m.detail}')
+        for x in back:                                   # what the parsed slice converts into is the window, too
+            if isinstance(x, Slice):
+                for how, mk in (('to_cell', lambda: x.to_cell()), ('copy.to_cell', lambda: x.copy().to_cell()),
+                                ('to_builder.end_cell', lambda: x.to_builder().end_cell())):
+                    ok, c2 = call(mk)
+                    if not ok:
+                        return Fail(f'windowed-slice/{how}-raises/{exc_sig(c2)}', repr(c2))
+                    got = ('slice', c2.bits.to01(), [rv.to_tree(r) for r in c2.refs])
+                    for m in diff([got], [want[1]]):
+                        return Fail(f'windowed-slice/{how}/{m.cls}', f'window bits {sb}..{eb} refs {sr}..{er} of a cell with {nb} bits / {nr} refs: '
+                                    f'the cell taken from the parsed slice: {m.path}: {m.detail}')
         for x in back:                                   # the caller reads what it got; the stack cell is parsed again
             if isinstance(x, Slice):
                 call(lambda: x.load_bits(min(5, len(x.bits))))
